@@ -60,7 +60,7 @@ type Taint struct {
 	p            *Prog
 	sum          map[*ssa.Function]*fnSummary
 	asmWrite     map[string]map[int]bool // body-less function name -> param indices it may write
-	asmResult map[string]string // body-less function name -> "public" | "verdict" (from A2)
+	asmResult    map[string]string       // body-less function name -> "public" | "verdict" (from A2)
 	srcReadFull  map[string]bool         // functions in which io.ReadFull's buffer is a source
 	globalMem    map[*ssa.Global]lbl
 	declass      map[string]bool // functions whose results are public by declaration
